@@ -785,6 +785,13 @@ pub fn main_for(sc: &dyn Scenario, a: &Args) -> i32 {
         if let Some(w) = wit {
             let p = if w.starts_with('/') { w.clone() } else { format!("{}/{w}", verif_dir()) };
             let rep = reproduces_in_fresh_process(sc.id(), &p, sig);
+            // a listed finding the sampled batch did not meet this time but whose recorded witness still fails on
+            // this tree is still a finding of this tree: one line per listed finding, met or not
+            let met = m["known_met"].get(sig.as_str()).is_some();
+            if rep == Some(true) && !met {
+                println!("KNOWN-FINDING: property={} {} [signature={} met=0 witness={} reproduces]", sc.id(), _what, sig, w);
+                known_lines.push(json!({"signature": sig, "what": _what, "met": 0, "by_witness": true}));
+            }
             witness_status.push(json!({"signature": sig, "witness": w, "reproduces": rep}));
         }
     }
